@@ -634,6 +634,7 @@ impl Node {
         let mut notes = vec![];
         let mut sk = vec![];
         let mut sd = vec![];
+        let mut sm = vec![];
         for e in effects {
             match e {
                 Effect::Notify(n) => notes.push(notif_json(n)),
@@ -641,6 +642,7 @@ impl Node {
                     let p = codec::parse(self.ncfg.codec, data);
                     sk.push(json!(p.header.map(|h| crate::sim::kind_name(&h.message)).unwrap_or("?")));
                     sd.push(id_json(dst));
+                    sm.push(json!(p.members.len()));
                 }
                 Effect::Timer { .. } => {}
             }
@@ -659,7 +661,7 @@ impl Node {
         };
         let idv = if self.poisoned { id_json(&NO_ID) } else { id_json(self.foca.identity()) };
         json!({"ev": "call", "lite": true, "now": now, "node": self.idx, "call": name, "res": res.json(),
-               "k": k, "from": id_json(&from), "din": din, "acc": acc, "notes": notes, "sk": sk, "sd": sd,
+               "k": k, "from": id_json(&from), "din": din, "acc": acc, "notes": notes, "sk": sk, "sd": sd, "sm": sm,
                "id": idv, "state": state, "same": same})
     }
 
